@@ -372,6 +372,16 @@ func runScheduled(p Prog, schedule []int) runOut {
 			out.deadlock = strings.Join(d, "; ")
 			break
 		}
+		// the enabled threads in thread order, rotated so that the thread that ran last
+		// (when it can continue) comes first: choice 0 = no switch
+		if last != nil {
+			for i, x := range en {
+				if x == last {
+					en = append(append([]*thr{}, en[i:]...), en[:i]...)
+					break
+				}
+			}
+		}
 		pick := 0
 		if si < len(schedule) {
 			c := schedule[si]
